@@ -47,6 +47,40 @@ def state_type(defn, name):
     return None
 
 
+def f62_prone(defn):
+    """
+    Does the machine have a fan-out whose join state cannot be rebuilt from redelivered events (recorded finding F62)?  The result of a finished Branch survives a
+    restart when the event held for it is re-executed on redelivery (a Pass / Wait / Choice / Succeed terminal state recomputes its output from the event); it does not
+    when that event is a Task's (a redelivered Task is not invoked again and its reply is gone), when the Branch ends in a nested Map/Parallel (its events were
+    acknowledged at the inner join), or when a Map is re-entered per MaxConcurrency block (the re-entry event cannot rebuild earlier blocks).
+    """
+    def terminal_types(m):
+        out = []
+        for st_ in (m.get("States") or {}).values():
+            if isinstance(st_, dict) and (st_.get("End") or st_.get("Type") in ("Succeed", "Fail")):
+                out.append(st_.get("Type"))
+        return out
+
+    def walk(m):
+        for st_ in (m.get("States") or {}).values():
+            if not isinstance(st_, dict):
+                continue
+            subs = list(st_.get("Branches") or []) + [st_.get(k) for k in ("Iterator", "ItemProcessor") if isinstance(st_.get(k), dict)]
+            if st_.get("Type") == "Map" and st_.get("MaxConcurrency"):
+                return True
+            for sub in subs:
+                if any(t in ("Task", "Map", "Parallel") for t in terminal_types(sub)):
+                    return True
+                if any(isinstance(x, dict) and (x.get("Retry") or x.get("Catch")) for x in (sub.get("States") or {}).values()):
+                    return True       # handled failures inside a Branch: the held event may be a Task's
+                if walk(sub):
+                    return True
+            if subs and (st_.get("Retry") or st_.get("Catch")):
+                return True
+        return False
+    return walk(defn)
+
+
 def settled(arn):
     def until(w):
         b = w.broker
@@ -194,8 +228,12 @@ def judge(case, base, got, crashes):
     if got["protocol_errors"]:
         fails.append(("protocol-error:" + tag, repr(got["protocol_errors"][:2])))
     # The join state of Map/Parallel states lives in the memory of the process (recorded finding): crashes of machines with a fan-out are reported as their own class
+    # A crash inside a handler can leave a fan-out half launched (some Branch events published, the Map/Parallel event redelivered and launched again under a new ID):
+    # the first launch can never join and keeps its events. That, too, is the in-memory join state of F62, so in-handler crashes of any fan-out machine stay in that class;
+    # for crashes between handlers only the fan-outs whose join state cannot be rebuilt from redelivered events do.
     text = json.dumps(case["definition"])
-    if '"Type": "Parallel"' in text or '"Type": "Map"' in text:
+    has_fanout = '"Type": "Parallel"' in text or '"Type": "Map"' in text
+    if f62_prone(case["definition"]) or (has_fanout and kinds != ["between"]):
         fails = [(b + ":fanout", d) for b, d in fails]
     return fails, in_prog
 
@@ -293,6 +331,51 @@ def enumerate_shard(k, seed, tier, examples=6, nshards=1):
     return camp.export()
 
 
+def rebuildable_fanouts():
+    """Fan-outs whose join state can be rebuilt from redelivered events: every Branch ends in a Pass / Wait / Succeed that recomputes its output from its event.
+    The Branches take different times (tasks with delays, waits), so that there are windows in which some have finished and others are still in flight."""
+    T = lambda fn, nxt: {"Type": "Task", "Resource": "arn:aws:rpcmessage:local::function:" + fn, "ResultPath": "$.t", "Next": nxt}
+    out = []
+    par = {"StartAt": "P", "States": {"P": {"Type": "Parallel", "ResultPath": "$.r", "Next": "Z", "Branches": [
+        {"StartAt": "A1", "States": {"A1": {"Type": "Pass", "Result": {"quick": True}, "End": True}}},
+        {"StartAt": "B1", "States": {"B1": T("slow1", "B2"), "B2": {"Type": "Pass", "Parameters": {"b.$": "$.t"}, "End": True}}},
+        {"StartAt": "C1", "States": {"C1": {"Type": "Wait", "Seconds": 2, "Next": "C2"}, "C2": {"Type": "Succeed"}}}]}, "Z": {"Type": "Pass", "End": True}}}
+    out.append(("parallel", par, {"x": 1}))
+    mp = {"StartAt": "M", "States": {"M": {"Type": "Map", "ItemsPath": "$.items", "ResultPath": "$.r", "End": True, "ItemProcessor": {"StartAt": "I1", "States": {
+        "I1": T("byitem", "I2"), "I2": {"Type": "Pass", "Parameters": {"i.$": "$.t"}, "End": True}}}}}}
+    out.append(("map", mp, {"items": [{"d": 0}, {"d": 3}, {"d": 1}]}))
+    oracle = {"slow1": {"seq": [{"ok": "$echo", "delay": 3}]}, "byitem": {"seq": [{"ok": "$echo"}], "by_key": {json.dumps({"d": 3}): [{"ok": "$echo", "delay": 3}], json.dumps({"d": 1}): [{"ok": "$echo", "delay": 1}]}}}
+    return [{"definition": d, "input": i, "oracle": oracle, "type": "STANDARD", "label": lab} for lab, d, i in out]
+
+
+def rebuildable_shard(k, seed, tier, nshards=1):
+    """Every between-handler crash point (and a few down times) of the rebuildable fan-outs: the execution must finish exactly as without the crash."""
+    camp = Campaign(PID, rule=RULE, tier=tier, seed=seed)
+    jobs = []
+    for case in rebuildable_fanouts():
+        base = run(case, [], ())
+        if base["exceptions"] or not base["quiescent"]:
+            camp.harness_error("baseline of the rebuildable fan-out %s is not clean: %r" % (case["label"], base["exceptions"][:1]))
+            continue
+        for step in range(1, base["steps"] + 1):
+            for down in ((0, 1.5) if tier != "thorough" else (0, 0.25, 1.5, 5)):
+                jobs.append((case, base, {"mode": "between", "step": step, "down": down}))
+    for j, (case, base, p) in enumerate(jobs):
+        if j % nshards != k:
+            continue
+        c = {"definition": case["definition"], "input": case["input"], "oracle": case["oracle"], "type": case["type"], "schedule": [], "crashes": [p]}
+        try:
+            got = run(case, [], [p])
+            fails, nt = judge(case, base, got, [p])
+        except Exception as e:
+            camp.harness_error("rebuildable fan-out crashed the harness: %r %s" % (e, traceback.format_exc()[-600:]))
+            continue
+        camp.case(c, nontrivial=bool(nt), classes=["rebuildable-fanout-" + case["label"], "crash-between"] + (["in-progress"] if nt else ["outside-execution"]))
+        for b, d in fails:
+            camp.fail(b, c, d)
+    return camp.export()
+
+
 def replay_case(case):
     fails, nt, info = evaluate(case)
     return fails
@@ -320,7 +403,9 @@ def main(tier, seed, replay=None):
     if tier == "thorough":
         run_shards(camp, __name__, "shard", 16, examples=700)
         run_shards(camp, __name__, "enumerate_shard", 16, examples=12)
+        run_shards(camp, __name__, "rebuildable_shard", 16, nshards=16)
     else:
         run_shards(camp, __name__, "shard", 8, examples=60)
         run_shards(camp, __name__, "enumerate_shard", 8, examples=3)
+        run_shards(camp, __name__, "rebuildable_shard", 8, nshards=8)
     return camp.finish()
